@@ -235,6 +235,24 @@ class VectorOverhangEnd(Overhang):
     file, qual, symbase, group, abstract_name = VEC, "AbstractVector.overhang_end", "AbstractVector", 1, "oend"
 
 
+def appended_source(ex, st, rec, before, lo, hi, strand, sid):
+    """the feature table of `rec` is `before` plus one feature of type `source` at [lo, hi) on `strand` whose `plasmid`
+    qualifier is `sid`.  Stated over the components the table term shows (nothing is asked of the other qualifiers)."""
+    from pyvc.models_bio import last_feature, quals_get
+    from pyvc.symex import Unsupported
+    shown = last_feature(ex.models.feats_term(st, st.get(rec, "features")))
+    if shown is None:
+        raise Unsupported("the feature table is not shown as an append of one feature")
+    b_, t_, lo_, hi_, sd_, q_ = shown
+    named = quals_get(q_, "plasmid")
+    if named is None:
+        if q_.op == "app" and str(q_.args[0]).startswith("quals:"):
+            return tm.FALSE      # the appended feature shows its qualifiers, and no `plasmid` entry among them: it names nothing
+        raise Unsupported("the qualifiers of the appended feature are not shown")
+    return tm.and_(tm.eq(b_, before), tm.eq(t_, tm.S("source")), tm.eq(lo_, lo), tm.eq(hi_, hi), tm.eq(sd_, strand),
+                   tm.eq(named, sid))
+
+
 class TargetSequence(EntityMethod):
     """module: circ(s, cut1, cut2-cut1) with cut1 = start of group 1, cut2 = end of group 2 (start of group 3);
     vector: the complementary stretch circ(s, cut2, n-(cut2-cut1)).  One generated `source` feature covering the
@@ -265,13 +283,11 @@ class TargetSequence(EntityMethod):
         i = tm.pymod(tm.sub(0, c1), n)
         f0 = ex.models.feats_term(pre, pre.get(rec, "features"))
         rotated = tm.ite(tm.eq(i, 0), f0, tm.app("feats_rot", FEATS, f0, i, n))
-        src = tm.app("feat", "Feat", tm.S("source"), tm.I(0), flen, tm.I(0),
-                     tm.app("quals:label,mol_type,organism,plasmid", "Quals",
-                            tm.concat("source: ", pre.get(rec, "id").t), tm.S("other DNA"),
-                            tm.S("synthetic DNA construct"), pre.get(rec, "id").t))
-        want = tm.app("feats_snoc", FEATS, tm.app("feats_slice", FEATS, rotated, lo, hi, n), src)
+        # C09 asks for one generated `source` feature per fragment that covers it and *names* the plasmid (read here:
+        # its `plasmid` qualifier, as the bounded oracle does); what else its qualifiers say is left open
         out.append(("features-inherited-plus-one-source-feature",
-                    tm.eq(ex.models.feats_term(st, st.get(result, "features")), want)))
+                    appended_source(ex, st, result, tm.app("feats_slice", FEATS, rotated, lo, hi, n),
+                                    tm.I(0), flen, tm.I(0), pre.get(rec, "id").t)))
         out.append(("carries-record-id", tm.eq(st.get(result, "id").t, pre.get(rec, "id").t)))
         # ownership (the `fresh` ghost of the design): the fragment handed out is a new record, not one the entity
         # keeps (add_as_source appends to its argument in place: a kept fragment would grow with every call)
@@ -402,12 +418,8 @@ class AddAsSource(Contract):
         f0 = ex.models.feats_term(pre, pre.get(dst, "features"))
         sid = pre.get(src, "id").t
         lo, hi, strand = self._where(pre, a, n)
-        feat = tm.app("feat", "Feat", tm.S("source"), lo, hi, strand,
-                      tm.app("quals:label,mol_type,organism,plasmid", "Quals", tm.concat("source: ", sid),
-                             tm.S("other DNA"), tm.S("synthetic DNA construct"), sid))
         return [("returns-dst", tm.B(result is dst)),
-                ("appends-one-source-feature-covering-dst",
-                 tm.eq(ex.models.feats_term(st, st.get(dst, "features")), tm.app("feats_snoc", FEATS, f0, feat))),
+                ("appends-one-source-feature-covering-dst", appended_source(ex, st, dst, f0, lo, hi, strand, sid)),
                 ("text-untouched", tm.eq(ex.models.rec_text(st, dst), ex.models.rec_text(pre, dst))),
                 # (when the caller passes the same object as source and destination, the append above is all that happens to it)
                 ("src-untouched", tm.B(src is dst or st.fields(src) == pre.fields(src)))]
@@ -418,9 +430,8 @@ class AddAsSource(Contract):
         f0 = ex.models.feats_term(st, st.get(dst, "features"))
         sid = st.get(src, "id").t
         lo, hi, strand = self._where(st, a, n)
-        feat = tm.app("feat", "Feat", tm.S("source"), lo, hi, strand,
-                      tm.app("quals:label,mol_type,organism,plasmid", "Quals", tm.concat("source: ", sid),
-                             tm.S("other DNA"), tm.S("synthetic DNA construct"), sid))
+        from pyvc.models_bio import quals_naming
+        feat = tm.app("feat", "Feat", tm.S("source"), lo, hi, strand, quals_naming(sid))
         st = st.set(dst, "features", VT(tm.app("feats_snoc", FEATS, f0, feat), "list"))
         return [(st, dst)]
 
